@@ -464,6 +464,25 @@ pub fn run_with(w: usize, t: usize, reorder: bool, src: &str, given: Option<&str
                             f.push(format!("c19k={}", i));
                         }
                     }
+                    // an import with neither comment nor duplicate comes out sorted: by the printed item texts, or
+                    // (typstyle's key) by the raw source texts of the items, which differ when an item holds blanks
+                    let raw = obs::obs_imports_raw(root);
+                    if keep.len() == a.len() && raw.len() == a.len() && b.len() == a.len() {
+                        for i in 0..a.len() {
+                            if keep[i] || raw[i].len() != a[i].len() {
+                                continue;
+                            }
+                            let mut printed_sorted = b[i].clone();
+                            printed_sorted.sort();
+                            let mut idx: Vec<usize> = (0..a[i].len()).collect();
+                            idx.sort_by(|x, y| raw[i][*x].cmp(&raw[i][*y]));
+                            let by_raw: Vec<String> = idx.iter().map(|j| a[i][*j].clone()).collect();
+                            if b[i] != printed_sorted && b[i] != by_raw {
+                                ok19 = false;
+                                f.push(format!("c19s={}", i));
+                            }
+                        }
+                    }
                     if let Outcome::Ok(out_off) = format(config(w, t, false), src) {
                         let off = Source::detached(out_off);
                         if obs::without_import_items(oroot) != obs::without_import_items(off.root()) {
